@@ -11,6 +11,43 @@ THEOREMS = [
 ]
 
 
+MAX_SECONDS = (2**63 - 1) // 10**9
+WIRE_VALUES = [0, 1, 2, 5, 60, 2**31, 2**32 - 1, 2**32, 2**32 + 1, MAX_SECONDS, MAX_SECONDS + 1, 10**12, -1]
+
+
+def wire_episode(rng):
+    """one breaker configuration through validation and NewLoadBalancer; values at and beyond the
+    ranges of the types the balancer converts them to (uint32 counts, time.Duration nanoseconds)"""
+    small = lambda: rng.choice([1, 1, 2, 3, 5, 60])
+    pick = lambda: rng.choice(WIRE_VALUES) if rng.random() < 0.4 else small()
+    mx = rng.choice([0, 0, 1, 5]) if rng.random() < 0.6 else rng.choice(WIRE_VALUES)
+    return ["lb wire %d %d %d %d %d" % (mx, pick(), pick(), pick(), pick())]
+
+
+def wire_oracle(ep, outs):
+    """independent of the model: an accepted configuration runs with exactly the configured
+    numbers (max_requests 0 = success_threshold), and is live: success_threshold <= max_requests"""
+    w = ep[0].split()
+    mx, iv, to, ft, st = (int(x) for x in w[2:7])
+    o = outs[0] if outs else ""
+    documented = ft >= 1 and st >= 1 and to >= 1 and iv >= 1 and mx >= 0 and (mx == 0 or st <= mx) and \
+        iv <= MAX_SECONDS and to <= MAX_SECONDS and max(mx, ft, st) <= 2**32 - 1
+    if o == "rejected":
+        return [] if not documented else ["a breaker configuration meeting every documented constraint is rejected: %s" % ep[0]]
+    if not o.startswith("eff "):
+        return ["unexpected answer %r to %s" % (o, ep[0])]
+    e = [int(x) for x in o.split()[1:]]
+    want = [mx if mx else st, iv * 10**9, to * 10**9, ft, st]
+    fails = []
+    names = ["max_requests", "interval (ns)", "timeout (ns)", "failure_threshold", "success_threshold"]
+    for n, a, b in zip(names, e, want):
+        if a != b:
+            fails.append("accepted breaker configuration %s runs with %s=%d instead of %d" % (" ".join(w[2:7]), n, a, b))
+    if e[4] > e[0]:
+        fails.append("C08: accepted configuration %s can never close: effective success_threshold %d > max_requests %d" % (" ".join(w[2:7]), e[4], e[0]))
+    return fails
+
+
 def check(ctx):
     ctx.assumptions += [
         "virtual clock via overlay; requests overlap at critical-section granularity",
@@ -19,6 +56,12 @@ def check(ctx):
     ]
     ok = C.prove(ctx, MODULES, THEOREMS)
     c07.run_checks(ctx, ("C08",))
+    from . import c02
+    dw = C.Differential(ctx, c02.build(ctx))
+    wired = [["lb wire 4294967297 60 1 2 5"], ["lb wire 1 9223372037 1 3 1"], ["lb wire 0 60 60 5 2"]] + \
+        [wire_episode(ctx.rng) for _ in range(3000 if ctx.thorough() else 400)]
+    dw.check(wired, oracle=wire_oracle, label="cb-config")
+    ctx.cov["breaker_configs_through_validation_and_wiring"] = len(wired)
     if not ok:
         C.violation(ctx, "proof", {"what": "a proof obligation of C08 no longer checks",
                                    "broken": [o for o in ctx.obligations if not o[1]]},
